@@ -55,14 +55,16 @@ func buildC11Cells() []c11cell {
 	var out []c11cell
 	// every built-in test with a failing subject, derived from the C20 catalogue
 	seen := map[string]bool{}
+	perClass := map[string]int{}
 	for _, cfg := range c20Configs {
 		cfg := cfg
 		key := testClass(cfg) + "|" + cfg.test.Op.String()
 		if cfg.test.Op == spec.TMin || cfg.test.Op == spec.TMax || cfg.test.Op == spec.TLen {
 			key += fmt.Sprint(cfg.test.N)
 		}
-		// one cell per (kind, test, Not) - choose a parameter that has a failing, present subject
-		if seen[testClass(cfg)] {
+		// up to 8 cells per (kind, test, Not) with distinct parameters (nil, NaN, empty, zero ... print differently) - each needs a failing, present subject
+		pkey := testClass(cfg) + "|" + fmt.Sprintf("%d|%s", cfg.test.N, obs.Render(obs.Norm(cfg.test.Arg)))
+		if seen[pkey] || perClass[testClass(cfg)] >= 8 {
 			continue
 		}
 		var subj any
@@ -94,7 +96,8 @@ func buildC11Cells() []c11cell {
 		if !found {
 			continue
 		}
-		seen[testClass(cfg)] = true
+		seen[pkey] = true
+		perClass[testClass(cfg)]++
 		t := cfg.test
 		cell := c11cell{name: cfg.name, node: func() *spec.Node { return single(cfg.kind, cfg.elem, cfg.test) }, parse: subj, val: obs.Norm(subj), code: t.EffCode(), value: obs.Norm(subj)}
 		cell.dtype = cell.node().DType()
@@ -231,7 +234,7 @@ func (c11) RunCase(c *core.Ctx) {
 	saved := conf.IssueFormatter
 	defer func() { conf.IssueFormatter = saved }()
 	// alternate the language inside one process: the language must be the one named in THIS execution's context
-	seq := []string{"default", "i18n:en", "i18n:none", "i18n:es", "i18n:unknown", "i18n:none", "i18n:en", "i18n:es", "default"}
+	seq := []string{"default", "i18n:en", "i18n:none", "i18n:es", "i18n:unknown", "i18n:none", "i18n:en", "i18n:es", "default", "i18nU:EN", "i18nU:none", "i18nU:unknown", "i18nK:EN", "i18nK:none"}
 	for _, lang := range seq {
 		var langMap zconst.LangMap
 		var opts []z.ExecOption
@@ -239,6 +242,25 @@ func (c11) RunCase(c *core.Ctx) {
 		case "default":
 			conf.IssueFormatter = saved
 			langMap = en.Map
+		case "i18nU:EN", "i18nU:none", "i18nU:unknown":
+			// languages registered under keys of the caller's choosing (upper case, region suffix), one of them the default
+			i18n.SetLanguagesErrsMap(map[string]zconst.LangMap{"EN": en.Map, "es-ES": es.Map}, "es-ES")
+			switch lang {
+			case "i18nU:EN":
+				opts, langMap = []z.ExecOption{z.WithCtxValue("lang", "EN")}, en.Map
+			case "i18nU:unknown":
+				opts, langMap = []z.ExecOption{z.WithCtxValue("lang", "fr-FR")}, es.Map
+			default:
+				langMap = es.Map
+			}
+		case "i18nK:EN", "i18nK:none":
+			// a language key of the caller's choosing; the standard key then means nothing
+			i18n.SetLanguagesErrsMap(map[string]zconst.LangMap{"EN": en.Map, "ES": es.Map}, "ES", i18n.WithLangKey("locale"))
+			if lang == "i18nK:EN" {
+				opts, langMap = []z.ExecOption{z.WithCtxValue("locale", "EN"), z.WithCtxValue("lang", "ES")}, en.Map
+			} else {
+				opts, langMap = []z.ExecOption{z.WithCtxValue("lang", "EN")}, es.Map
+			}
 		default:
 			i18n.SetLanguagesErrsMap(map[string]zconst.LangMap{"en": en.Map, "es": es.Map}, "es")
 			switch lang {
